@@ -411,6 +411,110 @@ theorem c05_fillRun_agrees (c : Chain σ α) (xs : List α) (h : (fillRun c xs).
   | ok st => rw [congrArg Prod.fst (hfb _ (by rw [hf]; rfl))]; rfl
   | stop st => rw [congrArg Prod.fst (hfb _ (by rw [hf]; rfl))]; rfl
 
+/-! ### runs that end with an exception: agreement up to the exception (unconditional)
+
+Without any hypothesis: what the C05 transcription yields before the generator dies is always a prefix of
+what the C03 transcription (which knows no exception) predicts; with `c05_split_agrees` it is all of it
+when there is no exception. -/
+
+theorem andThen_vals_some (a b : Strm α) (e : Exc) (h : a.term = some e) : (a.andThen b).vals = a.vals := by
+  obtain ⟨av, at_⟩ := a
+  simp only at h
+  subst h
+  rfl
+
+theorem andThen_prefix {β : Type} (a b : Strm β) (l₁ l₂ : List β) (ha : a.vals = l₁) (hb : b.vals <+: l₂) :
+    (a.andThen b).vals <+: l₁ ++ l₂ := by
+  cases ht : a.term with
+  | none =>
+    rw [andThen_vals a b ht, ha]
+    exact (List.prefix_append_right_inj l₁).mpr hb
+  | some e =>
+    rw [andThen_vals_some a b e ht, ha]
+    exact List.prefix_append l₁ l₂
+
+theorem processBuf_prefix (buf : List α) : ∀ (act : List (Active σ α)),
+    (processBuf buf act).2.vals <+: tagOuts (C03.foldB (C03.stepBranch buf) (act.map toBranch)).1
+  | [] => by simp [processBuf, C03.foldB, tagOuts, Strm.nil]
+  | B :: rest => by
+    have hto := tagOuts_fillBuf B.idx (activeOps : C03.Ops (Active σ α) α) buf B
+    have ih := processBuf_prefix buf rest
+    cases hf : feedList (chainSink B.chain.acc B.chain.pre) B.st buf with
+    | err e =>
+      rw [processBuf, hf]
+      exact List.nil_prefix
+    | ok st' =>
+      have hfb := fillBuf_active B.idx buf B ({ B with st := st' }, false) (by rw [hf]; rfl)
+      have hp : processBuf buf (B :: rest) = ({ B with st := st' } :: (processBuf buf rest).1, (processBuf buf rest).2) := by
+        rw [processBuf, hf]
+      have hs : C03.stepBranch buf (toBranch B) =
+          ((C03.fillBuf B.idx activeOps B buf).1, some (toBranch { B with st := st' })) := by
+        rw [stepBranch_fc_ok buf (toBranch B) rfl (congrArg Prod.snd hfb)]
+        simp only [toBranch, congrArg Prod.fst hfb]
+      rw [hp]
+      simp only [List.map_cons, C03.foldB, hs, tagOuts_append, hto, List.nil_append]
+      exact ih
+    | stop st' =>
+      have hfb := fillBuf_active B.idx buf B ({ B with st := st' }, true) (by rw [hf]; rfl)
+      have hp : processBuf buf (B :: rest) = ((processBuf buf rest).1,
+          (tag B.idx (computeAfter B.chain (chainAcc B.chain.pre st'))).andThen (processBuf buf rest).2) := by
+        rw [processBuf, hf]
+      have hs : C03.stepBranch buf (toBranch B) =
+          ((C03.fillBuf B.idx activeOps B buf).1 ++ C03.Ev.compute B.idx ::
+              C03.outs B.idx (computeAfter B.chain (chainAcc B.chain.pre st')).vals, none) := by
+        rw [stepBranch_fc_stop buf (toBranch B) rfl (congrArg Prod.snd hfb)]
+        simp only [toBranch, congrArg Prod.fst hfb]
+        rfl
+      rw [hp]
+      simp only [List.map_cons, C03.foldB, hs, tagOuts_append, hto, List.nil_append, tagOuts, tagOuts_outs]
+      exact andThen_prefix _ _ _ _ rfl ih
+
+theorem finalCompute_prefix (fwe : Bool) : ∀ (act : List (Active σ α)),
+    (finalCompute act).vals <+: tagOuts (C03.finalPass fwe (act.map toBranch))
+  | [] => List.prefix_refl _
+  | B :: rest => by
+    simp only [finalCompute, List.map_cons, C03.finalPass, toBranch, tagOuts, tagOuts_append, tagOuts_outs, activeOps]
+    exact andThen_prefix _ _ _ _ rfl (finalCompute_prefix fwe rest)
+
+theorem splitLoop_prefix (fwe : Bool) : ∀ (bufs : List (List α)) (act : List (Active σ α)),
+    (splitLoop bufs act).vals <+:
+      tagOuts ((C03.passes bufs (act.map toBranch)).1 ++ C03.finalPass fwe (C03.passes bufs (act.map toBranch)).2)
+  | [], act => by
+    simpa [splitLoop, C03.passes] using finalCompute_prefix fwe act
+  | buf :: bufs, act => by
+    simp only [splitLoop, C03.passes, List.append_assoc, tagOuts_append]
+    cases ht : (processBuf buf act).2.term with
+    | none =>
+      obtain ⟨p1, p2⟩ := processBuf_agrees buf act ht
+      rw [andThen_vals _ _ ht, p1, p2]
+      have ih := splitLoop_prefix fwe bufs (processBuf buf act).1
+      rw [tagOuts_append] at ih
+      exact (List.prefix_append_right_inj _).mpr ih
+    | some e =>
+      rw [andThen_vals_some _ _ e ht]
+      exact List.IsPrefix.trans (processBuf_prefix buf act) (List.prefix_append _ _)
+
+/-- **C05 ↔ C03, `Split.run`, every run (also those that end with an exception).**  For every list of chains,
+`bufsize ≠ 0`, `copy_buf`, flow: the tagged values the C05 transcription yields — up to the exception, if one
+is raised — are a prefix of the `out` events of the C03 transcription. -/
+theorem c05_split_prefix (cs : List (Chain σ α)) (bufsize : Option Nat) (hb : bufsize ≠ some 0) (copyBuf : Bool)
+    (xs : List α) :
+    (splitRunTagged cs bufsize xs).vals <+: tagOuts ((toSplit cs bufsize copyBuf).runTrace xs) := by
+  rw [C03.loop_refines_spec (toSplit cs bufsize copyBuf) hb]
+  unfold splitRunTagged
+  simp only [C03.Split.runSpec, toSplit, ← chunks_eq_blocks]
+  exact splitLoop_prefix _ _ _
+
+/-- a run that ends with an exception: `Split([(boom, Sum()), (Sum(),)], bufsize=2)` on `[1, 13, 3]` — `boom`
+raises on 13; C05 predicts `ValueError` before anything is yielded, C03 (no exceptions) goes on -/
+example :
+    let cs : List (Chain Int Int) :=
+      [{ pre := [.call (fun v => if v = 13 then .error .valueError else .ok v)], acc := exSum, post := [] },
+       { pre := [], acc := exSum, post := [] }]
+    splitRunTagged cs (some 2) [1, 13, 3] = ⟨[], some .valueError⟩ ∧
+    tagOuts ((toSplit cs (some 2) true).runTrace [1, 13, 3]) = [(0, 4), (1, 17)] := by
+  decide
+
 /-! ### non-vacuity and transfer -/
 
 /-- the demo of `Props/C05.lean` (`Split([(Slice(2), Sum()), (double, Sum())], bufsize=2)` on `1..7`)
@@ -1073,6 +1177,284 @@ theorem c04_request_erases (E : Erasure σ₄ S C σ₃ α) :
     rw [hbr, ← hc]
     rfl
 
+/-! ### the canonical erasure; C03 is the token-free fragment of C04 -/
+
+/-- a value without mutable objects -/
+def bare (x : S) : Item S := ⟨x, []⟩
+
+/-- the methods of a C04 object read off on a heap that holds `c0` everywhere and on values without
+mutable objects: skeletons yielded, flag, new state -/
+def canonOps (c0 : C) (o : C04.Ops σ₄ S C) : C03.Ops σ₄ S :=
+  { call := fun s => ((o.act (fun _ => c0) s .call).2.2.outs.map (·.skel), (o.act (fun _ => c0) s .call).2.1)
+    fill := fun s x =>
+      ((o.act (fun _ => c0) s (.fill (bare x))).2.1, (o.act (fun _ => c0) s (.fill (bare x))).2.2.stopped)
+    compute := fun s =>
+      ((o.act (fun _ => c0) s .compute).2.2.outs.map (·.skel), (o.act (fun _ => c0) s .compute).2.1)
+    request := fun s =>
+      ((o.act (fun _ => c0) s .request).2.2.outs.map (·.skel), (o.act (fun _ => c0) s .request).2.1)
+    run := fun s b =>
+      ((o.act (fun _ => c0) s (.run (b.map bare))).2.2.outs.map (·.skel),
+        (o.act (fun _ => c0) s (.run (b.map bare))).2.1) }
+
+/-- the canonical erasure: values are skeletons, states are kept -/
+def canon (c0 : C) : Erasure σ₄ S C σ₄ S := { val := id, abs := id, ops := canonOps c0 }
+
+/-- the observable (skeleton-level) behaviour of the object depends neither on the heap nor on identities -/
+def Oblivious (c0 : C) (o : C04.Ops σ₄ S C) : Prop := (canon c0).Sound o
+
+/-- a C03 branch object as a C04 branch object that owns no mutable object and never touches the heap -/
+def embedOps {σ α : Type} (o : C03.Ops σ α) : C04.Ops σ α Unit :=
+  { act := fun st s r =>
+      match r with
+      | .call => (st, (o.call s).2, { outs := (o.call s).1.map bare })
+      | .fill x => (st, (o.fill s x.skel).1, { stopped := (o.fill s x.skel).2 })
+      | .compute => (st, (o.compute s).2, { outs := (o.compute s).1.map bare })
+      | .request => (st, (o.request s).2, { outs := (o.request s).1.map bare })
+      | .run b => (st, (o.run s (b.map (·.skel))).2, { outs := (o.run s (b.map (·.skel))).1.map bare })
+    refs := fun _ => [] }
+
+def embedBranch {σ α : Type} (b : C03.Branch σ α) : C04.Branch σ α Unit :=
+  { id := b.id, kind := b.kind, ops := embedOps b.ops, st := b.st }
+
+def embedSplit {σ α : Type} (s : C03.Split σ α) : C04.Split σ α Unit :=
+  { branches := s.branches.map embedBranch, bufsize := s.bufsize, copyBuf := s.copyBuf }
+
+theorem map_skel_bare {α : Type} (l : List α) : (l.map (bare : α → Item α)).map (·.skel) = l := by
+  simp [List.map_map, Function.comp_def, bare]
+
+theorem canonOps_embed {σ α : Type} (o : C03.Ops σ α) : canonOps () (embedOps o) = o := by
+  cases o
+  simp only [canonOps, embedOps, map_skel_bare, bare]
+
+/-- every C03 object, embedded, is heap-oblivious: `Sound` is satisfiable by every branch C03 can express -/
+theorem embed_oblivious {σ α : Type} (o : C03.Ops σ α) : Oblivious () (embedOps o) := by
+  have key : ∀ l : List α, List.map (canon (σ₄ := σ) ()).item (l.map (bare : α → Item α)) = l := by
+    intro l; simp [Erasure.item, canon, List.map_map, Function.comp_def, bare]
+  have kb : ∀ b : List (Item α), (canon (σ₄ := σ) ()).buf b = b.map (·.skel) := by
+    intro b; simp [Erasure.buf, Erasure.item, canon]
+  unfold Oblivious
+  constructor
+  · intro st s
+    show (List.map (canon (σ₄ := σ) ()).item ((o.call s).1.map bare), (o.call s).2) = (canonOps () (embedOps o)).call s
+    rw [canonOps_embed, key]
+  · intro st s x
+    show ((o.fill s x.skel).1, (o.fill s x.skel).2) = (canonOps () (embedOps o)).fill s x.skel
+    rw [canonOps_embed]
+  · intro st s
+    show (List.map (canon (σ₄ := σ) ()).item ((o.compute s).1.map bare), (o.compute s).2) = (canonOps () (embedOps o)).compute s
+    rw [canonOps_embed, key]
+  · intro st s
+    show (List.map (canon (σ₄ := σ) ()).item ((o.request s).1.map bare), (o.request s).2) = (canonOps () (embedOps o)).request s
+    rw [canonOps_embed, key]
+  · intro st s b
+    show (List.map (canon (σ₄ := σ) ()).item ((o.run s (b.map (·.skel))).1.map bare), (o.run s (b.map (·.skel))).2)
+      = (canonOps () (embedOps o)).run s ((canon (σ₄ := σ) ()).buf b)
+    rw [canonOps_embed, key, kb]
+
+/-- **C03 is literally the token-free fragment of C04** (unconditional, for EVERY C03 `Split` — any branches,
+kinds, methods — and every flow): run the C04 transcription of `Split.run` on the embedded `Split` (objects that
+own no mutable object), erase — the result is the trace of the C03 transcription. -/
+theorem c03_is_token_free_c04 {σ α : Type} (s : C03.Split σ α) (hv : s.bufsize ≠ some 0) (st0 : Store Unit)
+    (flow : List α) :
+    (canon (σ₄ := σ) ()).trace ((embedSplit s).runTrace st0 (flow.map bare)).1 = s.runTrace flow := by
+  rw [c04_run_erases (canon (σ₄ := σ) ()) (embedSplit s) hv
+    (by intro b hb
+        simp only [embedSplit, List.mem_map] at hb
+        obtain ⟨b', _, rfl⟩ := hb
+        exact embed_oblivious b'.ops)]
+  have h1 : (canon (σ₄ := σ) ()).split (embedSplit s) = s := by
+    cases s with
+    | mk brs bs cb =>
+      simp only [Erasure.split, embedSplit, List.map_map, C03.Split.mk.injEq, and_true]
+      conv => rhs; rw [← List.map_id brs]
+      apply List.map_congr_left
+      intro b _
+      cases b
+      simp [Erasure.branch, embedBranch, canon, canonOps_embed]
+  have h2 : (canon (σ₄ := σ) ()).buf (flow.map (bare : α → Item α)) = flow := by
+    simp [Erasure.buf, Erasure.item, canon, List.map_map, Function.comp_def, bare]
+  rw [h1, h2]
+
+/-! ### an object that does mutate the heap, and is `Sound`
+
+`tagger`: a fill/compute element in the style of `Variable`/`UpdateContext` + `StoreFilled`: `fill` writes
+into every mutable object of the value it is given (the heap changes) and keeps the value; `compute`
+yields what was kept.  Its skeleton-level behaviour is `taggerPlain`, whatever the heap. -/
+
+def tagger : C04.Ops (List (Item Nat)) Nat Nat :=
+  { act := fun st s r =>
+      match r with
+      | .fill x => (x.cells.foldl (fun h t => h.set t (h t + 1)) st, s ++ [x], {})
+      | .compute => (st, s, { outs := s })
+      | .request => (st, [], { outs := s })
+      | .call => (st, s, {})
+      | .run b => (st, s, { outs := b })
+    refs := fun s => C04.cellsOf s }
+
+def taggerPlain : C03.Ops (List Nat) Nat :=
+  { call := fun s => ([], s), fill := fun s x => (s ++ [x], false), compute := fun s => (s, s)
+    request := fun s => (s, []), run := fun s b => (b, s) }
+
+def taggerErasure : Erasure (List (Item Nat)) Nat Nat (List Nat) Nat :=
+  { val := id, abs := fun s => s.map (·.skel), ops := fun _ => taggerPlain }
+
+theorem tagger_sound : taggerErasure.Sound tagger := by
+  constructor <;> intros <;> simp [tagger, taggerPlain, taggerErasure, Erasure.item, Erasure.buf]
+
+/-- a run in which the heap is really mutated (the object of the first value holds 1 afterwards — the second
+branch got the original buffer) and where the erased C04 trace is the C03 trace -/
+example :
+    let s : C04.Split (List (Item Nat)) Nat Nat :=
+      { branches := [{ id := 0, kind := .fillCompute, ops := tagger, st := [] },
+                     { id := 1, kind := .fillRequest, ops := tagger, st := [] }],
+        bufsize := some 2, copyBuf := true }
+    let flow : List (Item Nat) := [⟨10, [(0, 0)]⟩, ⟨11, [(0, 1)]⟩, ⟨12, []⟩]
+    (s.runTrace (fun _ => 0) flow).2 (0, 0) = 1 ∧
+    taggerErasure.trace (s.runTrace (fun _ => 0) flow).1 = (taggerErasure.split s).runTrace [10, 11, 12] ∧
+    C03.outputs ((taggerErasure.split s).runTrace [10, 11, 12]) = [10, 11, 12, 10, 11, 12] := by
+  refine ⟨by decide, ?_, by decide⟩
+  exact c04_run_erases taggerErasure _ (by decide)
+    (by intro b hb; simp only [List.mem_cons, List.not_mem_nil, or_false] at hb
+        rcases hb with rfl | rfl <;> exact tagger_sound) _ _
+
+/-! ### transfer C03 → C04 -/
+
+theorem filter_filterMap_comm {A B : Type} (f : A → Option B) (p : B → Bool) (q : A → Bool)
+    (h : ∀ a b, f a = some b → p b = q a) : ∀ l : List A, (l.filterMap f).filter p = (l.filter q).filterMap f
+  | [] => rfl
+  | a :: l => by
+    have ih := filter_filterMap_comm f p q h l
+    cases hf : f a with
+    | none =>
+      rw [List.filterMap_cons_none hf, List.filter_cons]
+      split
+      · rw [List.filterMap_cons_none hf]; exact ih
+      · exact ih
+    | some b =>
+      rw [List.filterMap_cons_some hf, List.filter_cons, List.filter_cons, h a b hf]
+      split
+      · rw [List.filterMap_cons_some hf, ih]
+      · exact ih
+
+theorem Erasure.ev_branch (E : Erasure σ₄ S C σ₃ α) (e : C04.Ev S C) (e' : C03.Ev α) (h : E.ev e = some e') :
+    e'.branch = e.branch := by
+  cases e <;> simp only [Erasure.ev, Option.some.injEq] at h <;> first | (subst h; rfl) | exact absurd h (by simp)
+
+theorem Erasure.proj_trace (E : Erasure σ₄ S C σ₃ α) (i : Nat) (tr : List (C04.Ev S C)) :
+    C03.proj i (E.trace tr) = E.trace (C04.proj i tr) :=
+  filter_filterMap_comm E.ev _ _ (fun a b h => by rw [E.ev_branch a b h]) tr
+
+/-- **Transfer C03 → C04** (`C03.projection` + the four closed forms of `branchTrace`): in the token model, the
+events of a branch — erased — are the life of that branch over the blocks of the flow as C03 defines it;
+whatever the other branches do to the heap. -/
+theorem c04_branch_events (E : Erasure σ₄ S C σ₃ α) (s : C04.Split σ₄ S C) (hv : s.bufsize ≠ some 0)
+    (hs : ∀ b ∈ s.branches, E.Sound b.ops) (hnd : (s.branches.map (·.id)).Nodup)
+    (b : C04.Branch σ₄ S C) (hb : b ∈ s.branches) (st0 : Store C) (flow : List (Item S)) :
+    E.trace (C04.proj b.id (s.runTrace st0 flow).1) =
+      C03.branchTrace (E.branch b) (C03.blocks s.bufsize (E.buf flow)) := by
+  rw [← E.proj_trace, c04_run_erases E s hv hs]
+  have hnd' : ((E.split s).branches.map (·.id)).Nodup := by
+    simpa [Erasure.split, List.map_map, Function.comp_def, Erasure.branch] using hnd
+  exact C03.projection (E.split s) hv hnd' (E.branch b) (List.mem_map_of_mem hb) (E.buf flow)
+
+/-- **Transfer C03 → C04** (`C03.no_assert_fail`): `assert flow_was_empty` never fails in the token model -/
+theorem c04_no_assert_fail (E : Erasure σ₄ S C σ₃ α) (s : C04.Split σ₄ S C) (hv : s.bufsize ≠ some 0)
+    (hs : ∀ b ∈ s.branches, E.Sound b.ops) (st0 : Store C) (flow : List (Item S)) :
+    C04.Ev.assertFail ∉ (s.runTrace st0 flow).1 := by
+  intro hmem
+  have h1 : C03.Ev.assertFail ∈ E.trace (s.runTrace st0 flow).1 :=
+    List.mem_filterMap.mpr ⟨_, hmem, rfl⟩
+  rw [c04_run_erases E s hv hs] at h1
+  obtain ⟨i, hi⟩ := C03.no_assert_fail (E.split s) hv _ _ h1
+  simp [C03.Ev.branch] at hi
+
+/-- **Transfer C03 → C04** (`C03.copy_buf_irrelevant`): at the level of plain values, `copy_buf` changes nothing
+(identities and heap contents do differ: that is C04's subject) -/
+theorem c04_copyBuf_values_irrelevant (E : Erasure σ₄ S C σ₃ α) (brs : List (C04.Branch σ₄ S C))
+    (bs : Option Nat) (hv : bs ≠ some 0) (hs : ∀ b ∈ brs, E.Sound b.ops) (st0 : Store C) (flow : List (Item S)) :
+    E.trace (C04.Split.runTrace { branches := brs, bufsize := bs, copyBuf := true } st0 flow).1 =
+      E.trace (C04.Split.runTrace { branches := brs, bufsize := bs, copyBuf := false } st0 flow).1 := by
+  rw [c04_run_erases E _ hv hs, c04_run_erases E _ hv hs]
+  exact C03.copy_buf_irrelevant _ bs hv _
+
 end c04
+
+/-! ## 4. C02 ↔ C03: `Split.run` as a lazy generator
+
+**What is shared by construction** (no bridge needed): the per-block processing.  `C02.processBlock`
+*calls* `C03.blockLoop` (the index loop with in-place deletion) and `C03.finalPass`; C02's list semantics
+`Stage.den (.split …)` *is* `C03.Split.run` (first `example`).  A transcription error in `blockLoop`,
+`stepBranch`, `fillBuf` or `finalPass` would therefore be common to C02 and C03 — these four are covered
+by the independent C04/C05/C16 transcriptions of sections 1-3.
+
+**What is independent**: the `while True:` loop over the flow.  C03 reads blocks from a list
+(`outerLoop`/`readBlock`); C02 has its own program-point machine (`splitStep`: phases `reading` — one
+upstream `next` per step, `islice` semantics —, `blockRead`, `emitting`, `finalEmit`) over a pull-based
+upstream.  Their agreement is `C02.split_produces` (the generator realises the stamped specification
+`splitSpec`) composed with `C02.splitSpec_fst` (the values of `splitSpec` are `C03.Split.run`); it is
+re-stated here as one bridge theorem, and composed with section 2. -/
+
+section c02
+open Lena.C02
+variable {σ σb α : Type}
+
+/-- shared by definition: the list semantics C02 gives to a `Split` stage is the C03 transcription -/
+example (brs : List (C03.Branch σb α)) (bs : Option Nat) (cb : Bool) (xs : List α) :
+    Stage.den (.split σb brs bs cb) xs = C03.Split.run { branches := brs, bufsize := bs, copyBuf := cb } xs := rfl
+
+/-- shared by definition: a complete non-empty block is processed by `C03.blockLoop` -/
+example (cb : Bool) (s : σ) (l : SSt σb α) (h : l.buf.isEmpty = false) :
+    ∃ l' : SSt σb α, processBlock cb s l = .cont (s, l') ∧
+      l'.act = (C03.blockLoop cb l.buf (l.act.length + 1) 0 l.act []).2 ∧
+      l'.pending = C03.outputs (C03.blockLoop cb l.buf (l.act.length + 1) 0 l.act []).1 := by
+  simp [processBlock, h]
+
+/-- shared by definition: the final pass is `C03.finalPass` -/
+example (cb : Bool) (s : σ) (l : SSt σb α) (h : l.buf.isEmpty = true) :
+    ∃ l' : SSt σb α, processBlock cb s l = .cont (s, l') ∧
+      l'.pending = C03.outputs (C03.finalPass l.fwe l.act) := by
+  simp [processBlock, h]
+
+/-- **C02 ↔ C03.**  Whatever upstream generator produces the stamped values `vals` (`Produces`), the generator
+`splitG` (C02's transcription of `Split.run`, own outer loop) produces — with enough fuel, for every non-empty
+list of branches, `bufsize ≠ 0`, either `copy_buf` — stamped values whose value part is exactly what the
+C03 transcription of `Split.run` yields on the values of `vals`. -/
+theorem c02_splitG_agrees (bufsize : Option Nat) (copyBuf : Bool) (up : Gen σ α) (cnt : σ → Nat) (fu : Nat)
+    (hb : bufsize ≠ some 0) (brs : List (C03.Branch σb α)) (hne : brs ≠ [])
+    {s : σ} {vals : List (α × Nat)} {cf : Nat} (h : Produces up cnt fu s vals cf)
+    (hfu : 4 * vals.length + 5 < fu) :
+    ∃ out : List (α × Nat),
+      Produces (splitG bufsize copyBuf up) (fun t => cnt t.1) fu (s, splitInit brs) out cf ∧
+      out.map Prod.fst = C03.Split.run { branches := brs, bufsize := bufsize, copyBuf := copyBuf } (vals.map Prod.fst) := by
+  refine ⟨_, split_produces bufsize copyBuf up cnt fu hb brs h hfu, ?_⟩
+  have hne' : ¬ brs.isEmpty = true := by cases brs <;> simp_all
+  exact splitSpec_fst brs bufsize copyBuf hne' ⟨cnt s, vals, cf⟩
+
+/-- **Transfer C16 → C02 through C03**: the lazy `Split.run` around one `FillRequest` branch yields, whatever
+the upstream generator and the pull schedule, the values `C16.splitFR` predicts. -/
+theorem c02_splitG_fillRequest {σe β γ : Type} (e : C16.El σe β γ) (N : Nat) (rst bi yor : Bool) (el : σe)
+    (bufsize : Option Nat) (copyBuf : Bool) (up : Gen σ (β ⊕ γ)) (cnt : σ → Nat) (fu : Nat)
+    (hb : bufsize ≠ some 0) {s : σ} (xs : List β) {vals : List ((β ⊕ γ) × Nat)} {cf : Nat}
+    (hvals : vals.map Prod.fst = xs.map Sum.inl) (h : Produces up cnt fu s vals cf)
+    (hfu : 4 * vals.length + 5 < fu) :
+    ∃ out : List ((β ⊕ γ) × Nat),
+      Produces (splitG bufsize copyBuf up) (fun t => cnt t.1) fu (s, splitInit [frBranch 0 e N rst bi yor el]) out cf ∧
+      out.map Prod.fst = (C16.splitFR e N rst bi yor bufsize el xs).map Sum.inr := by
+  obtain ⟨out, h1, h2⟩ := c02_splitG_agrees bufsize copyBuf up cnt fu hb [frBranch 0 e N rst bi yor el] (by simp) h hfu
+  refine ⟨out, h1, ?_⟩
+  rw [h2, hvals, c16_single_branch_agrees e N rst bi yor bufsize hb copyBuf el xs]
+
+/-- non-vacuity: the instrumented list source of C02 satisfies the hypotheses, for any flow and enough fuel -/
+example (xs : List Nat) (fu : Nat) (hfu : 4 * xs.length + 5 < fu) :
+    ∃ out : List ((Nat ⊕ List Nat) × Nat),
+      Produces (splitG (some 2) true listSrc) (fun t => Src.clock t.1) fu
+        ({ rest := xs.map Sum.inl, clock := 0, ended := false },
+          splitInit [frBranch 0 (C16.lstEl : C16.El (List Nat) Nat (List Nat)) 3 true true false []]) out
+        (0 + (xs.map (Sum.inl : Nat → Nat ⊕ List Nat)).length + 1) ∧
+      out.map Prod.fst = (C16.splitFR C16.lstEl 3 true true false (some 2) [] xs).map Sum.inr :=
+  c02_splitG_fillRequest C16.lstEl 3 true true false [] (some 2) true listSrc Src.clock fu (by decide) xs
+    (stamps_map_fst _ 0) (listSrc_produces fu _ 0) (by simpa using hfu)
+
+end c02
 
 end Lena.Bridge.Split
